@@ -4,7 +4,8 @@ from ..engine import Engine, Inconclusive, C, fmt, subterms
 from ..common import site
 from .ops import strip_casts
 from .c09 import root_of
-from . import c04
+from . import c04, c06
+from ..report import RuleView
 
 THIS_OBJ = ("deref", ("this",))
 
@@ -40,15 +41,27 @@ def run(rep, tier):
              "on every path every field of S is written exactly from the field of the same name (same element index for arrays) of the source object; no field is skipped, duplicated or fed from a neighbour")
     rep.rule("R-C08-pointers", "pointer fields are translated relative to the sandbox the struct image lives in: every context-free translation in a generated converter receives the address of the "
              "sandbox-memory object (the tainted_volatile struct or one of its fields) as its example, every context translation uses the caller's sandbox")
+    rep.rule("R-C08-arrays", "array fields are converted element-wise over every index of every dimension, or by one byte copy of the whole array between identical element representations "
+             "(shared analysis with C06's R-C06-array, applied to the array conversions the struct family instantiates)")
     rep.rule("R-C08-nested", "nested registered structs are converted recursively (their leaf fields appear in the mapping)")
     backends = ["model32", "noop"] if tier == "quick" else ["model32", "model32gi", "noop", "dylib"]
     dbs = facts.load_core(backends, ["INVOKE"], thorough=(tier == "thorough"))
+    # generated family (tools/gen_structs.py): every field kind of the quantifier in varying orders; 10 structs quick, 48 thorough
+    gen = facts.load_structs(["model32", "noop"] if tier == "quick" else ["model32", "model32gi", "noop", "dylib"], thorough=(tier == "thorough"))
     n = {"layout": 0, "conv": 0}
-    for db in dbs:
+    kinds_seen = set()
+    for db in dbs + gen:
         rep.units.append(db.label)
         a = abi.abi_of(db.label)
         structs = registered_structs(db)
-        rep.require(len(structs) >= 3, "%s: only %d registered structs found" % (db.label, len(structs)))
+        floor = 3 if db not in gen else (10 if tier == "quick" else 48)
+        rep.require(len(structs) >= floor, "%s: only %d registered structs found (floor %d)" % (db.label, len(structs), floor))
+        for S in structs:
+            host = next(x for x in db.records if x["n"] == S and not x["dep"])
+            for fl in host["fields"]:
+                kinds_seen.add(field_kind(fl["t"] or {}))
+        if db in gen:
+            c06.check_arrays(RuleView(rep, {"R-C06-array": "R-C08-arrays"}), db, floor=6)
         for S in structs:
             check_layout(rep, db, S, a, n)
         for f in db.functions:
@@ -66,6 +79,9 @@ def run(rep, tier):
                         n["ptr"] = n.get("ptr", 0) + 1
             except Inconclusive as ex:
                 rep.inconclusive("R-C08-fields", site(f), str(ex), inst)
+    want_kinds = {"int8", "uint8", "int16", "uint16", "int32", "uint32", "int64", "uint64", "bool", "enum", "float", "ptr", "fnptr", "arr:int", "arr:ptr", "arr:fnptr", "arr:arr", "struct"}
+    rep.require(want_kinds <= kinds_seen, "field kinds missing from the analysed struct family: %s" % sorted(want_kinds - kinds_seen))
+    rep.extra["field_kinds"] = sorted(kinds_seen)
     rep.require(n["layout"] >= 12, "only %d layouts compared (floor 12)" % n["layout"])
     rep.require(n.get("ptr", 0) >= 8, "only %d converters with pointer-field translations analysed (floor 8)" % n.get("ptr", 0))
     rep.require(n["conv"] >= 20, "only %d converter instantiations analysed (floor 20)" % n["conv"])
@@ -230,3 +246,23 @@ def same_indices(p1, p2):
 
 def show(path):
     return "".join(("." + x[1]) if x[0] == "f" else "[%s]" % fmt(x[1]) for x in path).lstrip(".")
+
+
+def field_kind(t):
+    k = t.get("k")
+    if k == "array":
+        el = t.get("el") or ""
+        if el.endswith("]"):
+            return "arr:arr"
+        if "(*" in el:
+            return "arr:fnptr"
+        if el.endswith("*"):
+            return "arr:ptr"
+        return "arr:int"
+    if k == "int":
+        return ("int" if t.get("sg") else "uint") + str(t.get("w"))
+    if k == "ptr":
+        return "fnptr" if "(" in (t.get("c") or "") else "ptr"
+    if k == "rec":
+        return "struct"
+    return k or "?"
